@@ -49,6 +49,12 @@ structure App where
 
 structure Disk where
   storeH : Nat := 0
+  /-- block store base: the lowest height still stored (0 = empty store) -/
+  storeBase : Nat := 0
+  /-- state store: validator sets are loadable for heights ≥ `statesBase`, and below it only for
+  `keptVal` (`PruneStates` keeps the entry the pruned-to height's set points to) -/
+  statesBase : Nat := 0
+  keptVal : Nat := 0
   walEnd : Nat := 0
   stateH : Nat := 0
   stateHash : Hist := []
@@ -75,6 +81,12 @@ structure Chain where
   `GenesisDoc.ValidateAndComplete` guarantees) -/
   ihPred : Nat := 0
   txs : Nat → List Tx
+  /-- the `RetainHeight` the application answers to the Commit of the block at each height
+  (0 = keep everything); chosen freely by the application -/
+  retain : Nat → Nat := fun _ => 0
+  /-- `LastHeightValidatorsChanged` of the validator set in force at each height (part of the opaque
+  chain content; the genesis InitialHeight for a chain without validator updates) -/
+  valLHC : Nat → Nat := fun _ => ihPred + 1
 
 /-- the genesis `InitialHeight` -/
 def Chain.ih (c : Chain) : Nat := c.ihPred + 1
@@ -132,6 +144,8 @@ inductive Eff
   | saveResp (h : Nat)        -- stateStore.SaveABCIResponses(h, …)
   | appCommit                 -- CommitSync (under the mempool lock)
   | saveState (h : Nat)       -- state.AppHash = appHash; stateStore.Save(state)
+  | pruneBlocks (r : Nat)     -- finalizeCommit → pruneBlocks: blockStore.PruneBlocks(retainHeight)
+  | pruneStates (r kept : Nat) -- … then stateStore.PruneStates(base, retainHeight); `kept` = the validator entry it keeps below r
   deriving DecidableEq, Repr
 
 def applyEff (d : Disk) : Eff → Disk
@@ -142,7 +156,7 @@ def applyEff (d : Disk) : Eff → Disk
     else { d with pvH := h, pvVotes := v, pvStep := v }
   | .pvSign h v =>
     if d.pvH = h then { d with pvStep := max d.pvStep v } else { d with pvH := h, pvVotes := 0, pvStep := v }
-  | .saveBlock h => { d with storeH := h }
+  | .saveBlock h => { d with storeH := h, storeBase := if d.storeBase = 0 then h else d.storeBase }
   | .walEnd h => { d with walEnd := h }
   | .begin h => { d with app := d.app.call (.begin h) }
   | .deliver _ tx => { d with app := d.app.call (.deliver tx) }
@@ -150,6 +164,9 @@ def applyEff (d : Disk) : Eff → Disk
   | .saveResp h => { d with lastResp := some h }
   | .appCommit => { d with app := d.app.call .commit }
   | .saveState h => { d with stateH := h, stateHash := d.app.hash }
+  -- PruneBlocks refuses heights beyond the store ("cannot prune beyond the latest height") and below the base
+  | .pruneBlocks r => if d.storeBase < r ∧ r ≤ d.storeH then { d with storeBase := r } else d
+  | .pruneStates r kept => { d with statesBase := r, keptVal := kept }
 
 def applyEffs (d : Disk) (es : List Eff) : Disk := es.foldl applyEff d
 
@@ -166,6 +183,12 @@ the state's app hash, and block 1 carries the `LastResultsHash` of the *complete
 def validBlock (c : Chain) (d : Disk) (h : Nat) : Bool :=
   h == nxt c d.stateH && hist c (h - 1) == d.stateHash && (decide (0 < d.stateH) || d.genesisSaved)
 
+/-- `getBeginBlockValidatorInfo` (first thing `execBlockOnProxyApp` does, real or mock application):
+for a block above the initial height the validator set of `h - 1` is loaded from the state store —
+a panic if `PruneStates` has removed it -/
+def valsOK (c : Chain) (d : Disk) (h : Nat) : Bool :=
+  decide (h ≤ c.ih) || decide (d.statesBase ≤ h - 1) || decide (h - 1 = d.keptVal)
+
 /-- `BlockExecutor.ApplyBlock` on the real application, after validation -/
 def applyBlockReal (c : Chain) (h : Nat) : List Eff :=
   execEffs c h ++ [.saveResp h, .appCommit, .saveState h]
@@ -177,6 +200,20 @@ def applyBlockMock (h : Nat) : List Eff := [.saveResp h, .saveState h]
 /-- `sm.ExecCommitBlock` -/
 def execCommit (c : Chain) (h : Nat) : List Eff := execEffs c h ++ [.appCommit]
 
+/-- `cs.pruneBlocks(retainHeight)` after `ApplyBlock` returned the application's RetainHeight:
+nothing if it is 0 or not above the block store's base; else `PruneBlocks` and — unless that
+fails because the height is beyond the store — `PruneStates`. The base is read after `SaveBlock`. -/
+def pruneList (c : Chain) (r h : Nat) : List Eff :=
+  if r ≤ h then [.pruneBlocks r, .pruneStates r (c.valLHC r)] else [.pruneBlocks r]
+
+/-- `retainHeight > 0` and above the block store's base (read after `SaveBlock`) -/
+def pruneCond (c : Chain) (d : Disk) (h : Nat) : Bool :=
+  decide (0 < c.retain h) &&
+    decide ((if d.storeBase = 0 ∧ d.storeH < h then h else d.storeBase) < c.retain h)
+
+def pruneEffs (c : Chain) (d : Disk) (h : Nat) : List Eff :=
+  if pruneCond c d h then pruneList c (c.retain h) h else []
+
 /-- deciding height `h` on a running node: the validator signs (and logs) its prevote and its
 precommit (a node that replayed some of them from the WAL after a restart signs only the rest; the
 pipeline position is the same), then
@@ -184,7 +221,8 @@ pipeline position is the same), then
 `none` = the `ValidateBlock` panic before anything is written. -/
 def finalizeEffs (c : Chain) (d : Disk) (h : Nat) : Option (List Eff) :=
   if validBlock c d h then
-    some ([.signVote h 1, .signVote h 2] ++ (if d.storeH < h then [.saveBlock h] else []) ++ [.walEnd h] ++ applyBlockReal c h)
+    some ([.signVote h 1, .signVote h 2] ++ (if d.storeH < h then [.saveBlock h] else []) ++ [.walEnd h] ++
+      applyBlockReal c h ++ pruneEffs c d h)
   else none
 
 /-! ## handshake -/
@@ -200,6 +238,7 @@ inductive Outcome
   | panicHashBlock     -- assertAppHashEqualsOneFromBlock
   | panicHashState     -- assertAppHashEqualsOneFromState
   | panicUncovered
+  | panicValsPruned    -- getBeginBlockValidatorInfo: "could not find validator set for height"
   deriving DecidableEq, Repr
 
 inductive Branch
@@ -217,10 +256,11 @@ structure HsResult where
 /-- the `for i := firstBlock; i <= finalBlock; i++` loop of `replayBlocks`: `hs` are the heights
 still to do, `acc` the effects so far, `appHash` the local variable (nil = []) -/
 def replayLoop (c : Chain) (d0 : Disk) : List Nat → List Eff → Hist → Nat →
-    Except (List Eff × Nat) (List Eff × Hist × Nat)
+    Except (List Eff × Nat × Bool) (List Eff × Hist × Nat)
   | [], acc, appHash, n => .ok (acc, appHash, n)
   | i :: rest, acc, appHash, n =>
-    if appHash ≠ [] ∧ appHash ≠ hist c (i - 1) then .error (acc, n)
+    if appHash ≠ [] ∧ appHash ≠ hist c (i - 1) then .error (acc, n, false)
+    else if !valsOK c d0 i then .error (acc, n, true)
     else
       let acc' := acc ++ execCommit c i
       replayLoop c d0 rest acc' (applyEffs d0 acc').app.hash (n + 1)
@@ -232,21 +272,23 @@ def replayBlocks (c : Chain) (d0 : Disk) (pre : List Eff) (appH storeH : Nat) (m
   let final := if mutate then storeH - 1 else storeH
   let first := if appH + 1 = 1 then c.ih else appH + 1
   match replayLoop c d0 ((List.range' first (final + 1 - first))) pre [] 0 with
-  | .error (acc, n) => ⟨acc, br, .panicHashBlock, n⟩
+  | .error (acc, n, vals) => ⟨acc, br, if vals then .panicValsPruned else .panicHashBlock, n⟩
   | .ok (acc, appHash, n) =>
     if mutate then
       let d := applyEffs d0 acc
       if validBlock c d storeH then
-        let acc' := acc ++ applyBlockReal c storeH
-        -- appHash = state.AppHash, the closing assertion compares the state with itself
-        ⟨acc', br, .ok, n + 1⟩
+        if valsOK c d storeH then
+          let acc' := acc ++ applyBlockReal c storeH
+          -- appHash = state.AppHash, the closing assertion compares the state with itself
+          ⟨acc', br, .ok, n + 1⟩
+        else ⟨acc, br, .panicValsPruned, n⟩
       else ⟨acc, br, .errInvalidBlock, n⟩
     else
       if appHash = (applyEffs d0 acc).stateHash then ⟨acc, br, .ok, n⟩
       else ⟨acc, br, .panicHashState, n⟩
 
-/-- `Handshaker.Handshake` + `ReplayBlocks` (block store never pruned: its base is the first block's
-height, `InitialHeight`, when non-empty) -/
+/-- `Handshaker.Handshake` + `ReplayBlocks`; `storeBase` is the block store's base (the first
+block's height until the application's RetainHeight made the node prune) -/
 def handshake (c : Chain) (d0 : Disk) : HsResult :=
   let appH := d0.app.height
   let storeH := d0.storeH
@@ -258,7 +300,8 @@ def handshake (c : Chain) (d0 : Disk) : HsResult :=
   if storeH = 0 then
     if appHash = d0.stateHash then ⟨pre, .storeEmpty, .ok, 0⟩
     else ⟨pre, .storeEmpty, .panicHashState, 0⟩
-  else if 0 < appH ∧ appH < c.ih - 1 then ⟨pre, .appTooLow, .errAppTooLow, 0⟩
+  else if appH = 0 ∧ c.ih < d0.storeBase then ⟨pre, .appTooLow, .errAppTooLow, 0⟩
+  else if 0 < appH ∧ appH < d0.storeBase - 1 then ⟨pre, .appTooLow, .errAppTooLow, 0⟩
   else if storeH < appH then ⟨pre, .appTooHigh, .errAppTooHigh, 0⟩
   else if storeH < stateH then ⟨pre, .stateAhead, .panicStateAhead, 0⟩
   else if storeH > nxt c stateH then ⟨pre, .storeAhead, .panicStoreAhead, 0⟩
@@ -272,12 +315,14 @@ def handshake (c : Chain) (d0 : Disk) : HsResult :=
     if appH < stateH then replayBlocks c d0 pre appH storeH true .replayMutate
     else if appH = stateH then
       if validBlock c (applyEffs d0 pre) storeH then
-        ⟨pre ++ applyBlockReal c storeH, .lastReal, .ok, 1⟩
+        if valsOK c d0 storeH then ⟨pre ++ applyBlockReal c storeH, .lastReal, .ok, 1⟩
+        else ⟨pre, .lastReal, .panicValsPruned, 0⟩
       else ⟨pre, .lastReal, .errInvalidBlock, 0⟩
     else if appH = storeH then
       if d0.lastResp = some storeH then
         if validBlock c (applyEffs d0 pre) storeH then
-          ⟨pre ++ applyBlockMock storeH, .lastMock, .ok, 1⟩
+          if valsOK c d0 storeH then ⟨pre ++ applyBlockMock storeH, .lastMock, .ok, 1⟩
+          else ⟨pre, .lastMock, .panicValsPruned, 0⟩
         else ⟨pre, .lastMock, .errInvalidBlock, 0⟩
       else ⟨pre, .lastMock, .errNoResp, 0⟩
     else ⟨pre, .uncovered, .panicUncovered, 0⟩
@@ -343,7 +388,14 @@ def stepSys (c : Chain) (s : Sys) : Op → Sys
         ⟨d, completed, completed⟩
       | none => ⟨crash s.disk, false, false⟩
     else s
-  | .rollback j => ⟨{ s.disk with app := s.disk.app.restore j }, false, false⟩
+  | .rollback j =>
+    -- a snapshot older than the block store's base - 1 cannot be caught up: the node refuses to
+    -- start (ErrAppBlockHeightTooLow, `too_old_snapshot_refused`); the operator has to take a newer one
+    -- … and (what `ReplayBlocks` does not check, `replay_at_base_panics`) the validator set needed to
+    -- replay the next block must not have been pruned from the state store
+    if s.disk.storeBase ≤ nxt c (s.disk.app.restore j).height ∧ s.disk.statesBase ≤ (s.disk.app.restore j).height then
+      ⟨{ s.disk with app := s.disk.app.restore j }, false, false⟩
+    else ⟨s.disk, false, false⟩
 
 def runSys (c : Chain) (s : Sys) (ops : List Op) : Sys := ops.foldl (stepSys c) s
 
@@ -359,6 +411,8 @@ write, after ApplyBlock, after updateToState; receiveRoutine: after an own vote 
 inductive Item
   | eff (e : Eff)
   | fail
+  /-- `cs.pruneBlocks` of height `h`: which effects it has depends on the block store's base then -/
+  | prune (h : Nat)
   deriving Repr
 
 def planApplyReal (c : Chain) (h : Nat) : List Item :=
@@ -369,21 +423,50 @@ def planApplyReal (c : Chain) (h : Nat) : List Item :=
 def planApplyMock (h : Nat) : List Item :=
   [.fail, .eff (.saveResp h), .fail, .fail, .eff (.saveState h), .fail]
 
-/-- the (re)start: handshake (fail points only inside `ApplyBlock`, i.e. in the real/mock replay of
-the last block; `ExecCommitBlock` has none), then the marker write of `catchupReplay` -/
+/-- `ApplyBlock`'s fail points woven into its effects: after the execution (EndBlock), after
+`SaveABCIResponses`, after `Commit`, after `Save` -/
+def realItems (e : Eff) : List Item :=
+  match e with
+  | .endBlock _ => [.eff e, .fail]
+  | .saveResp _ => [.eff e, .fail]
+  | .appCommit => [.eff e, .fail]
+  | .saveState _ => [.eff e, .fail]
+  | _ => [.eff e]
+
+def weaveReal (es : List Eff) : List Item := es.flatMap realItems
+
+/-- the same call sites with the mock application (its execution and Commit have no effects) -/
+def mockItems (e : Eff) : List Item :=
+  match e with
+  | .saveResp _ => [.eff e, .fail, .fail]
+  | .saveState _ => [.eff e, .fail]
+  | _ => [.eff e]
+
+def weaveMock (es : List Eff) : List Item := [.fail] ++ es.flatMap mockItems
+
+/-- where the `ApplyBlock` that replays the last block starts in the handshake's effects -/
+def hsSplit (c : Chain) (d : Disk) (r : HsResult) : Nat :=
+  match r.branch with
+  | .lastReal => r.effs.length - (applyBlockReal c d.storeH).length
+  | .replayMutate => r.effs.length - (applyBlockReal c d.storeH).length
+  | .lastMock => r.effs.length - (applyBlockMock d.storeH).length
+  | _ => r.effs.length
+
+def hsTail (r : HsResult) (es : List Eff) : List Item :=
+  match r.branch with
+  | .lastMock => weaveMock es
+  | _ => weaveReal es
+
+/-- the (re)start: the handshake's effects with fail points only inside the `ApplyBlock` that
+replays the last block (real or mock application; `ExecCommitBlock` has none), then the marker
+write of `catchupReplay` -/
 def planStart (c : Chain) (d : Disk) : List Item :=
   let r := handshake c d
   if r.outcome = .ok then
-    let pre : List Eff :=
-      if d.app.height = 0 then [.initChain] ++ (if d.stateH = 0 then [.saveGenesis] else []) else []
-    let hs : List Item := match r.branch with
-      | .lastReal => pre.map .eff ++ planApplyReal c d.storeH
-      | .lastMock => pre.map .eff ++ planApplyMock d.storeH
-      | .replayMutate =>
-        (r.effs.take (r.effs.length - (applyBlockReal c d.storeH).length)).map .eff ++ planApplyReal c d.storeH
-      | _ => r.effs.map .eff
+    let p := hsSplit c d r
     let d' := applyEffs d r.effs
-    hs ++ (if d'.walEnd ≠ d'.stateH then [.eff (.walEnd d'.stateH)] else [])
+    (r.effs.take p).map .eff ++ hsTail r (r.effs.drop p) ++
+      (if d'.walEnd ≠ d'.stateH then [.eff (.walEnd d'.stateH)] else [])
   else r.effs.map .eff
 
 /-- deciding height `h` in this incarnation. `w` = how many of the own votes of `h` are in the WAL
@@ -395,27 +478,39 @@ def planStart (c : Chain) (d : Disk) : List Item :=
   (`s = 1`); the replayed prevote makes the node sign its precommit while replaying; what was
   queued then goes through the receive routine (WAL write, fail point) before the commit.
 * `w = 0`: a fresh height. -/
-def planHeight (c : Chain) (storeH : Nat) (w s : Nat) (h : Nat) : List Item :=
-  let fin : List Item :=
-    [.fail] ++ (if storeH < h then [.eff (.saveBlock h)] else []) ++ [.fail, .eff (.walEnd h), .fail] ++
-    planApplyReal c h ++ [.fail, .fail]
+def finItems (c : Chain) (storeH h : Nat) : List Item :=
+  [.fail] ++ (if storeH < h then [.eff (.saveBlock h)] else []) ++ [.fail, .eff (.walEnd h), .fail] ++
+    planApplyReal c h ++ [.fail, .prune h, .fail]
+
+def voteItems (w s h : Nat) : List Item :=
   match w with
-  | 0 => [.eff (.signVote h 1), .fail, .eff (.signVote h 2), .fail] ++ fin
-  | 1 => [.eff (.pvSign h 2)] ++ (if s ≤ 1 then [.eff (.signVote h 1), .fail] else []) ++
-          [.eff (.signVote h 2), .fail] ++ fin
-  | _ => fin ++ [.fail]
+  | 0 => [.eff (.signVote h 1), .fail, .eff (.signVote h 2), .fail]
+  | _ => if s ≤ 1 then [.eff (.pvSign h 2), .eff (.signVote h 1), .fail, .eff (.signVote h 2), .fail]
+         else [.eff (.pvSign h 2), .eff (.signVote h 2), .fail]
+
+def planHeight (c : Chain) (storeH : Nat) (w s : Nat) (h : Nat) : List Item :=
+  if 2 ≤ w then finItems c storeH h ++ [.fail] else voteItems w s h ++ finItems c storeH h
+
+/-- `n` successive heights from `h` on -/
+def planHeights (c : Chain) (storeH w s : Nat) (h : Nat) : Nat → List Item
+  | 0 => []
+  | n + 1 => planHeight c storeH w s h ++ planHeights c 0 0 0 (nxt c h) n
 
 /-- run items until the `(i+1)`-th fail point (`failAt = some i`) or until BeginBlock of `exitH`
 would be sent (the test application stops the process there); returns the disk at death, whether
 the handshake part (the first `nHs` items) was completed, and whether it was the clean stop -/
-def runItems (exitH : Nat) : List Item → Disk → Option Nat → Nat → Nat → Disk × Nat × Bool
+def runItems (c : Chain) (exitH : Nat) : List Item → Disk → Option Nat → Nat → Nat → Disk × Nat × Bool
   | [], d, _, _, done => (d, done, false)
   | .fail :: rest, d, some 0, _, done => (d, done, false)
-  | .fail :: rest, d, some (i + 1), nHs, done => runItems exitH rest d (some i) nHs (done + 1)
-  | .fail :: rest, d, none, nHs, done => runItems exitH rest d none nHs (done + 1)
+  | .fail :: rest, d, some (i + 1), nHs, done => runItems c exitH rest d (some i) nHs (done + 1)
+  | .fail :: rest, d, none, nHs, done => runItems c exitH rest d none nHs (done + 1)
+  | .prune h :: rest, d, f, nHs, done => runItems c exitH rest (applyEffs d (pruneEffs c d h)) f nHs (done + 1)
   | .eff e :: rest, d, f, nHs, done =>
     if e = .begin exitH then (d, done, true)
-    else runItems exitH rest (applyEff d e) f nHs (done + 1)
+    else runItems c exitH rest (applyEff d e) f nHs (done + 1)
+
+/-- the disk reported right after the handshake, if the incarnation got that far -/
+def postOf (reached : Bool) (dHs : Disk) : Option Disk := if reached then some dHs else none
 
 /-- one incarnation of the node under `FAIL_TEST_INDEX = failAt`, deciding heights until the
 application's clean stop at BeginBlock `exitH`: the disk it leaves (before the restart marker), the
@@ -431,14 +526,18 @@ def incarnation (c : Chain) (d : Disk) (failAt : Option Nat) (exitH : Nat) (maxH
   let hadMarker := decide (dHs.walEnd = dHs.stateH)
   let w := if dSt.pvH = h0 ∧ hadMarker then dSt.pvVotes else 0
   let sgn := if dSt.pvH = h0 then dSt.pvStep else 0
-  -- heights decided by this incarnation (the store only matters for the first one)
-  let heights : List Item :=
-    (List.range maxHeights).foldl (fun acc i =>
-      let h := (List.range i).foldl (fun x _ => nxt c x) h0
-      acc ++ planHeight c (if i = 0 then dSt.storeH else 0) (if i = 0 then w else 0) (if i = 0 then sgn else 0) h) []
-  let items := planStart c d ++ heights
-  let (dEnd, done, clean) := runItems exitH items d failAt hsItems.length 0
-  (dEnd, if done ≥ hsItems.length ∧ r.outcome = .ok then some dHs else none, clean)
+  -- heights decided by this incarnation (store height and replayed votes only matter for the first)
+  let items := planStart c d ++ planHeights c dSt.storeH w sgn h0 maxHeights
+  let res := runItems c exitH items d failAt hsItems.length 0
+  (res.1, postOf (decide (res.2.1 ≥ hsItems.length ∧ r.outcome = .ok)) dHs, res.2.2)
+
+/-- a whole node-stream case: one incarnation per fail index (`none` = no FAIL_TEST_INDEX), each
+followed by the restart (the recording application notes it); a clean stop ends the sequence -/
+def runIncs (c : Chain) (exitH maxHeights : Nat) : List (Option Nat) → Disk → Disk
+  | [], d => d
+  | f :: fs, d =>
+    let r := incarnation c d f exitH maxHeights
+    if r.2.2 then crash r.1 else runIncs c exitH maxHeights fs (crash r.1)
 
 /-! ## the journal grammar (the property's reading of the call journal) -/
 
